@@ -275,6 +275,14 @@ func (s *Support) Cases(thorough bool) []*Case {
 	sp("CXBigBool", "big-bool-array-last", &Record{Kind: Struct, Fields: []Field{bait(), {Name: "a", Type: A(P("bool"))}}})
 	sp("CXBigStrArr", "big-string-array", &Record{Kind: Struct, Fields: []Field{{Name: "a", Type: A(P("string"))}, after()}})
 	sp("CXBigMap", "big-map", &Record{Kind: Struct, Fields: []Field{{Name: "m", Type: M("uint32", P("bool"))}, after()}})
+	// maps over a one-byte key type filled to the whole key space (256 entries; the 65 536 entries of a 16-bit key space
+	// were tried and dropped: every codec check became minutes slower and two of them timed out on the harness's own work)
+	sp("CXBigKeys8", "full-map-uint8-keys", &Record{Kind: Struct, Fields: []Field{{Name: "m", Type: M("uint8", P("bool"))}, {Name: "n", Type: M("byte", P("uint16"))}, after()}})
+	sp("CXBigKeysM", "full-maps-in-message", &Record{Kind: Message, Fields: []Field{{Name: "m", Index: 1, Type: M("uint8", P("string"))}, {Name: "n", Index: 2, Type: M("byte", P("bool"))}}})
+	// more than 4096 elements that take no bytes at all (the stream decoders grow the slice while "reading" them)
+	sp("CXBigEmptyArr", "big-empty-struct-array", &Record{Kind: Struct, Fields: []Field{bait(), {Name: "a", Type: A(s.Leaf("SupEmpty"))}, after()}})
+	sp("CXBigEmptyArrM", "big-empty-struct-array-in-message", &Record{Kind: Message, Fields: []Field{{Name: "a", Index: 1, Type: A(s.Leaf("SupEmpty"))}, {Name: "n", Index: 2, Type: P("int32")}}})
+	sp("CXBigEmptyMapM", "big-empty-struct-map-in-message", &Record{Kind: Message, Fields: []Field{{Name: "m", Index: 1, Type: M("uint32", s.Leaf("SupEmpty"))}, {Name: "n", Index: 2, Type: P("int32")}}})
 	sp("CXBigMsg", "big-message", &Record{Kind: Message, Fields: []Field{{Name: "s", Index: 1, Type: P("string")}, {Name: "a", Index: 2, Type: A(P("uint16"))}, {Name: "b", Index: 3, Type: A(P("byte"))}}})
 	// the big message nested in a struct, and a struct with a big payload nested in a message
 	bigMsg := out[len(out)-1].Rec
